@@ -283,6 +283,14 @@ def run(ctx):
                         ("QFormLayout", "QLayout.row: 1", "QFormLayout.column: 1"), ("QHBoxLayout", "QBoxLayout.columnStretch: 3", "QLayout.alignment: Qt.AlignTop")):
         others.append("import qmluic.QtWidgets\nQWidget {\n    %s {\n        QLabel { %s; %s }\n        QLabel { %s; %s; text: \"t\" }\n        QLabel { }\n    }\n}\n" % (lay, a1, a2, a2, a1))
         ctx.dist("attached-two-spellings")
+    # enumerators whose enum has a flags twin of the same values (Orientation / Orientations, WindowType / WindowFlags, ToolBarArea(s), DockWidgetArea(s)): the type a
+    # variant gets shows in the typed temporaries of the header and in diagnostics that quote it -- the same in every process
+    for b in ("QSlider { orientation: chk.checked ? Qt.Vertical : Qt.Horizontal }", "QLabel { text: Qt.Horizontal }", "QToolBar { allowedAreas: chk.checked ? Qt.TopToolBarArea : Qt.BottomToolBarArea }",
+              "QWidget { windowFlags: chk.checked ? Qt.Dialog : Qt.Window }", "QDockWidget { allowedAreas: chk.checked ? Qt.LeftDockWidgetArea : Qt.RightDockWidgetArea }",
+              "QLabel { alignment: chk.checked ? Qt.AlignLeft : Qt.AlignRight }", "QLabel { text: Qt.AlignLeft }", "QSlider { orientation: { let o = Qt.Vertical; return chk.checked ? o : Qt.Horizontal } }",
+              "QPushButton { onClicked: { let o = Qt.Horizontal; let f = Qt.Dialog | Qt.Window; console.log(o, f) } }", "QSplitter { orientation: chk.checked ? Qt.Vertical : Qt.Horizontal; opaqueResize: Qt.Vertical }"):
+        others.append("import qmluic.QtWidgets\nQMainWindow {\n  QCheckBox { id: chk }\n  %s\n}\n" % b)
+        ctx.dist("enumerators-with-a-flags-twin")
     for _ in others:
         ctx.dist("corpus/mutant")
     srcs = wide + others
